@@ -474,6 +474,18 @@ fn run_inner(op: &str, a: &[Arg]) -> String {
             Ok(toks) => format!("(ok ({}))", toks.iter().map(enc_tok).collect::<Vec<_>>().join(" ")),
             Err(e) => format!("(err {})", parse_err_name(&e)),
         },
+        // one template text per scalar value of a range: what the tokenizer makes of the character, as a
+        // run-length encoded string of classes (`I` part of the name, `W` separates like a blank, `E` error,
+        // `O…` anything else)
+        "sweep" => {
+            let tmpl: usize = xs(&a[0]).parse().expect("HARNESS: template");
+            let lo: u32 = xs(&a[1]).parse().expect("HARNESS: lo");
+            let hi: u32 = xs(&a[2]).parse().expect("HARNESS: hi");
+            let stride: u32 = xs(&a[3]).parse().expect("HARNESS: stride");
+            sweep_classes(tmpl, lo, hi, stride, |text| {
+                biodivine_boolean_functions::parser::verif::tokenize(text).ok().map(|ts| ts.iter().map(tok_shape).collect::<Vec<_>>())
+            })
+        }
         "parse" => match Expression::from_str(xs(&a[0])) {
             Ok(e) => format!("(ok {})", enc_expr(&e)),
             Err(e) => format!("(err {})", parse_err_name(&e)),
@@ -557,6 +569,57 @@ fn enc_csv_result(
             format!("(err {})", k)
         }
     }
+}
+
+/// the shape of a token: kind letters, literal names kept
+pub fn tok_shape(t: &biodivine_boolean_functions::parser::verif::Token) -> (char, String) {
+    use biodivine_boolean_functions::parser::verif::Token as K;
+    match t {
+        K::And => ('a', String::new()),
+        K::Or => ('o', String::new()),
+        K::Not => ('n', String::new()),
+        K::True => ('t', String::new()),
+        K::False => ('f', String::new()),
+        K::Literal(n) => ('l', n.clone()),
+        K::Parentheses(inner) => ('p', inner.iter().map(|x| tok_shape(x).0).collect()),
+    }
+}
+
+/// texts of the sweep templates and the name the character is expected to become part of
+pub fn sweep_text(tmpl: usize, c: char) -> (String, String) {
+    match tmpl {
+        0 => (format!("q{}", c), format!("q{}", c)),
+        1 => (format!("a{}b", c), format!("a{}b", c)),
+        2 => (format!("{{a{}b}}", c), format!("a{}b", c)),
+        3 => (format!("{}", c), format!("{}", c)),
+        4 => (format!("{{{}}}", c), format!("{}", c)),
+        _ => (format!("{{{}}}&b", c), format!("{}", c)),
+    }
+}
+
+pub fn sweep_classes<F: Fn(&str) -> Option<Vec<(char, String)>>>(tmpl: usize, lo: u32, hi: u32, stride: u32, lex: F) -> String {
+    let blank = lex(&sweep_text(tmpl, ' ').0);
+    let mut runs: Vec<(String, usize)> = vec![];
+    let mut cp = lo;
+    while cp < hi {
+        if let Some(c) = char::from_u32(cp) {
+            let (text, name) = sweep_text(tmpl, c);
+            let r = lex(&text);
+            let class = match &r {
+                None => "E".to_string(),
+                Some(ts) if ts.len() >= 1 && ts[0] == ('l', name.clone()) && ts.len() == (if tmpl == 5 { 3 } else { 1 }) => "I".to_string(),
+                Some(_) if r == blank => "W".to_string(),
+                Some(ts) => format!("O{}", ts.iter().map(|t| t.0).collect::<String>()),
+            };
+            match runs.last_mut() {
+                Some((k, n)) if *k == class => *n += 1,
+                _ => runs.push((class, 1)),
+            }
+        }
+        cp += stride;
+    }
+    let body: Vec<String> = runs.iter().map(|(k, n)| format!("{}*{}", k, n)).collect();
+    if body.is_empty() { "none".to_string() } else { body.join(",") }
 }
 
 fn enc_tok(t: &biodivine_boolean_functions::parser::verif::Token) -> String {
